@@ -83,6 +83,11 @@ func c07Stages() []c07StageInfo {
 		{s: &refmodel.Keep{Items: []refmodel.DKItem{dk("a"), dk("msg"), dk("missing")}}, isKeep: true},
 		{s: &refmodel.Keep{Items: []refmodel.DKItem{dm("c", "=", "x")}}, isKeep: true},
 		{s: &refmodel.Keep{Items: []refmodel.DKItem{dm("c", "!~", "x"), dk("b")}}, isKeep: true},
+		// several matchers on one label around a matcher on another one. Whether the matchers of one label combine by
+		// "all" (this engine) or by "any" (Loki) is not stated anywhere: the two on a agree on every value of the data.
+		{s: &refmodel.Keep{Items: []refmodel.DKItem{dm("a", "=~", "1.*"), dm("b", "=", "2"), dm("a", "=~", "1|12")}}, isKeep: true},
+		{s: &refmodel.Drop{Items: []refmodel.DKItem{dm("a", "=", "1"), dm("b", "=", "3"), dm("a", "=~", "1")}}},
+		{s: &refmodel.Drop{Items: []refmodel.DKItem{dm("a", "=", "2")}}},
 		{s: &refmodel.Decolorize{}},
 	}
 }
